@@ -448,6 +448,31 @@ func main() {
 							tx.Delete(key(r, *nkeys))
 						}
 					}
+					// now and then the transaction is used by two goroutines at once (a client that
+					// pipelines its calls): one walks an iterator of the transaction while the other
+					// overwrites and deletes keys the transaction has already written
+					if tx, ok := reg.Get(id); ok && !ro && r.Intn(4) == 0 {
+						k1, k2 := key(r, *nkeys), key(r, *nkeys)
+						tx.Put(k1, val(r, g, &ctr))
+						tx.Put(k2, val(r, g, &ctr))
+						it := tx.NewIterator()
+						var hw sync.WaitGroup
+						hw.Add(1)
+						go func() {
+							defer hw.Done()
+							for i := 0; i < 20; i++ {
+								tx.Put(k1, []byte(fmt.Sprintf("again-%d", i)))
+								if i%5 == 4 {
+									tx.Delete(k2)
+								}
+							}
+						}()
+						for it.SeekToFirst(); it.Valid(); it.Next() {
+							_ = string(it.Key()) + string(it.Value())
+							_ = it.IsTombstone()
+						}
+						hw.Wait()
+					}
 					if tx, ok := reg.Get(id); ok {
 						if r.Intn(3) == 0 {
 							tx.Rollback()
